@@ -252,6 +252,21 @@ def check_case(ctx, model, rows, cid_by_path=False, one_by_one_through_write_row
             ctx.violation("C14:file-differs-from-stream", case, "after close() the file named by a path does not hold the rows the writer accepted",
                           expected=output, observed=file_text)
             return
+        # ... and reading the file by its path gives what reading the text from a stream gives
+        def produced(source):
+            items = []
+            try:
+                for item in cutplace.rows(gen.load_cid(model), source, on_error="yield"):
+                    items.append(type(item).__name__ if isinstance(item, Exception) else list(item))  # (the texts name the input)
+            except errors.CheckError:
+                items.append("end: CheckError")
+            return items
+
+        from_path, from_stream = produced(file_path), produced(io.StringIO(output, newline=""))
+        if from_path != from_stream:
+            ctx.violation("C14:readback-from-path-differs", case, "reading the written file by its path gives other rows than reading the same text from a stream",
+                          expected=from_stream, observed=from_path)
+            return
     except Exception as error:
         from cpverif import core
 
